@@ -318,6 +318,20 @@ func (r *Reach) OrphanValues() []string {
 	return out
 }
 
+// OrphanValuesOf lists the unreferenced value blobs of the stores selected by activelyPersisted.
+func (r *Reach) OrphanValuesOf(activelyPersisted bool) []string {
+	var out []string
+	for _, n := range r.Names {
+		if r.Stores[n].Info.IsValueDataActivelyPersisted != activelyPersisted {
+			continue
+		}
+		for _, b := range r.Stores[n].OrphanValueBlobs {
+			out = append(out, fmt.Sprintf("%s: value blob %s is referenced by nothing", n, b))
+		}
+	}
+	return out
+}
+
 // Orphans lists C11-type leftovers other than OrphanValues.
 func (r *Reach) Orphans() []string {
 	var out []string
